@@ -75,6 +75,21 @@ def gen_layer_ops(rng, nsectors: int, unit: int, caps: dict, nops: int, wid0: in
     return ops
 
 
+def spray_ops(rng, nsectors: int, unit: int, stride_units: int, count: int, wid0: int, gran: int = 1) -> list:
+    """One small write every stride_units units: allocates many mapping tables (cache overflow worlds)."""
+    ops = []
+    nunits = (nsectors + unit - 1) // unit
+    u = rng.randrange(max(1, min(stride_units, nunits)))
+    wid = wid0
+    while u < nunits and len(ops) < count:
+        lba = u * unit
+        lba -= lba % gran
+        ops.append(["w", lba, max(gran, 1), wid])
+        wid += 1
+        u += stride_units
+    return ops
+
+
 def apply_ops(layer: Layer, ops: list, caps: dict, has_parent: bool) -> None:
     for op in ops:
         k = op[0]
